@@ -625,19 +625,7 @@ fn model_s(u: usize, m: &StateModel) -> String {
             format!("{}:{}:{}", n, index, fs)
         })
         .collect();
-    let ssm_json = m.serialize_state_model();
-    let mut ssm: Vec<(String, String)> = ssm_json
-        .as_object()
-        .map(|o| {
-            o.iter()
-                .map(|(k, v)| {
-                    (k.clone(), format!("{}:{}", v.get("name").and_then(|x| x.as_str()).unwrap_or("?"), v.get("index").and_then(|x| x.as_u64()).map(|x| x.to_string()).unwrap_or_else(|| "?".to_string())))
-                })
-                .collect()
-        })
-        .unwrap_or_default();
-    ssm.sort();
-    let ssm: Vec<String> = ssm.into_iter().map(|x| x.1).collect();
+    let ssm = jb(&m.serialize_state_model());
     let names_joined = m.get_names();
     let names_list: Vec<String> = if names_joined.is_empty() { vec![] } else { names_joined.split(',').map(|x| x.to_string()).collect() };
     format!(
@@ -649,7 +637,7 @@ fn model_s(u: usize, m: &StateModel) -> String {
         has.join(" "),
         list_s(&iter),
         list_s(&vec),
-        list_s(&ssm)
+        ssm
     )
 }
 
@@ -753,10 +741,16 @@ fn check_model(m: &StateModel, r: &[(String, Feat)], u: usize) -> Option<(&'stat
 }
 
 fn run_sm(ctx: &mut Ctx, idx: usize, u: usize, feats: Vec<(String, Feat)>, ops: Vec<SmOp>) {
+    run_sm_kind(ctx, idx, "sm", u, feats, ops)
+}
+
+/// kind: `sm` = `StateModel::new`, `smf` = `StateModel::from`, `sme` = `StateModel::empty()` (no features)
+fn run_sm_kind(ctx: &mut Ctx, idx: usize, kind: &'static str, u: usize, feats: Vec<(String, Feat)>, ops: Vec<SmOp>) {
     let case = format!(
-        "sm {} {} {} {}",
+        "{} {} {} {} {}",
+        kind,
         u,
-        feats_text(&feats),
+        if kind == "sme" { String::new() } else { feats_text(&feats) },
         ops.len(),
         ops.iter().map(|o| o.text()).collect::<Vec<_>>().join(" ")
     );
@@ -775,7 +769,12 @@ fn run_sm(ctx: &mut Ctx, idx: usize, u: usize, feats: Vec<(String, Feat)>, ops: 
         let mut fails: Vec<(&'static str, String)> = vec![];
         let mut counts: Vec<&'static str> = vec![];
         let mut outs: Vec<String> = vec![];
-        let mut m = StateModel::new(feats.iter().map(|(n, f)| (n.clone(), f.to_sf())).collect());
+        let sfs: Vec<(String, StateFeature)> = feats.iter().map(|(n, f)| (n.clone(), f.to_sf())).collect();
+        let mut m = match kind {
+            "sme" => StateModel::empty(),
+            "smf" => StateModel::from(sfs),
+            _ => StateModel::new(sfs),
+        };
         let mut r: Vec<(String, Feat)> = ref_extend(&[], &feats).unwrap_or_else(|| {
             // repeated name with different kinds: the reference keeps the last declaration
             let mut out: Vec<(String, Feat)> = vec![];
@@ -1383,50 +1382,134 @@ fn same_kind_variant(rng: &mut Rng, old: &Feat) -> Feat {
     }
 }
 
+/// JSON printed for comparison: integer numbers by lexeme, other numbers by bit pattern (the Lean model
+/// does not compute decimal float lexemes)
+fn jb(v: &serde_json::Value) -> String {
+    use serde_json::Value;
+    match v {
+        Value::Null => "z".to_string(),
+        Value::Bool(true) => "t".to_string(),
+        Value::Bool(false) => "f".to_string(),
+        Value::Number(n) => {
+            if n.is_u64() || n.is_i64() {
+                format!("ni {}", n)
+            } else {
+                format!("nf {}", n.as_f64().map(|x| x.to_bits()).unwrap_or(0))
+            }
+        }
+        Value::String(s) => format!("s {}", crate::jsonproto::hex(s)),
+        Value::Array(xs) => {
+            let mut out = vec![format!("a {}", xs.len())];
+            out.extend(xs.iter().map(jb));
+            out.join(" ")
+        }
+        Value::Object(m) => {
+            let mut out = vec![format!("o {}", m.len())];
+            for (k, x) in m {
+                out.push(crate::jsonproto::hex(k));
+                out.push(jb(x));
+            }
+            out.join(" ")
+        }
+    }
+}
+
 fn sorted_feats(fs: &[(String, String)]) -> String {
     let mut v: Vec<(String, String)> = fs.to_vec();
     v.sort_by(|a, b| a.0.cmp(&b.0));
     list_s(&v.into_iter().map(|x| x.1).collect::<Vec<_>>())
 }
 
-fn run_cf(ctx: &mut Ctx, idx: usize, cfg: Vec<(String, Feat)>, tr: Vec<(String, Feat)>, ac: Vec<(String, Feat)>, us: Option<Vec<(String, Feat)>>) {
-    let case = format!(
-        "cf {} {} {} {}",
-        feats_text(&cfg),
-        feats_text(&tr),
-        feats_text(&ac),
-        match &us {
-            None => "n".to_string(),
-            Some(fs) => format!("s {}", feats_text(fs)),
+/// first-occurrence order, last declaration wins: what "declaration order, a later feature replaces an
+/// earlier one in place" means, written independently
+fn declared(fs: &[(String, Feat)]) -> Vec<(String, Feat)> {
+    let mut out: Vec<(String, Feat)> = vec![];
+    for (n, f) in fs {
+        if let Some(e) = out.iter_mut().find(|e| e.0 == *n) {
+            e.1 = f.clone();
+        } else {
+            out.push((n.clone(), f.clone()));
         }
-    );
-    ctx.count(if us.is_some() { "cf_with_query_override" } else { "cf_without_query_override" });
+    }
+    out
+}
+
+/// what the query's `state_features` is meant to be
+#[derive(Clone, Debug)]
+enum UserPart {
+    /// no `state_features` key
+    Absent,
+    /// a well-formed object of state features
+    Features(Vec<(String, Feat)>),
+    /// present but not an object of state features: must be rejected with a BuildError
+    Malformed,
+}
+
+fn run_cf(ctx: &mut Ctx, idx: usize, u: usize, cfg: Vec<(String, Feat)>, tr: Vec<(String, Feat)>, ac: Vec<(String, Feat)>, query: serde_json::Value, us: UserPart) {
+    let case = format!("cf {} {} {} {} {}", u, feats_text(&cfg), feats_text(&tr), feats_text(&ac), crate::jsonproto::enc(&query));
+    ctx.count(match &us {
+        UserPart::Absent => "cf_without_query_override",
+        UserPart::Features(_) => "cf_with_query_override",
+        UserPart::Malformed => "cf_malformed_state_features",
+    });
     let to_sf = |fs: &[(String, Feat)]| -> Vec<(String, StateFeature)> { fs.iter().map(|(n, f)| (n.clone(), f.to_sf())).collect() };
     let res = catch_unwind(AssertUnwindSafe(|| {
         let mut fails: Vec<(&'static str, String)> = vec![];
         let m0 = StateModel::new(to_sf(&cfg));
-        let query = match &us {
-            None => serde_json::json!({"origin_vertex": 0}),
-            Some(fs) => {
-                let mut o = serde_json::Map::new();
-                for (n, f) in fs {
-                    o.insert(n.clone(), serde_json::to_value(f.to_sf()).unwrap());
-                }
-                serde_json::json!({"origin_vertex": 0, "state_features": o})
-            }
-        };
         let collected = collect_features(&query, Arc::new(Tm(to_sf(&tr))), Arc::new(Am(to_sf(&ac))));
+        let model_ref = declared(&tr.iter().chain(ac.iter()).cloned().collect::<Vec<_>>());
         match collected {
-            Err(e) => (format!("err {}", err_s(&e)), fails, 0usize, "cf_collect_rejected"),
-            Ok(fs) => {
-                let col = format!("ok {}", sorted_feats(&fs.iter().map(|(n, f)| (n.clone(), format!("{}:{}", n, feat_s(f)))).collect::<Vec<_>>()));
-                // reference: configuration, then model features (access over traversal), then the query's
-                let mut model_ref: Vec<(String, Feat)> = vec![];
-                for (n, f) in tr.iter().chain(ac.iter()) {
-                    if let Some(e) = model_ref.iter_mut().find(|e| e.0 == *n) { e.1 = f.clone(); } else { model_ref.push((n.clone(), f.clone())); }
+            Err(e) => {
+                match &us {
+                    UserPart::Malformed => {
+                        if err_s(&e) != "build" {
+                            fails.push(("state/collect-malformed", format!("malformed state_features reported as {}", e)));
+                        }
+                    }
+                    UserPart::Absent => fails.push(("state/collect-rejects", format!("no state_features, yet: {}", e))),
+                    UserPart::Features(fs) => {
+                        // legitimate only for an unknown name or another feature type
+                        let bad = fs.iter().any(|(n, f)| match model_ref.iter().find(|e| e.0 == *n) {
+                            None => true,
+                            Some((_, old)) => old.to_sf().get_feature_type() != f.to_sf().get_feature_type(),
+                        });
+                        if !bad {
+                            fails.push(("state/collect-rejects", format!("every override names a model feature of its type, yet: {}", e)));
+                        }
+                    }
                 }
+                // several offending entries: which one is reported depends on HashMap order
+                let mut kinds = std::collections::BTreeSet::new();
+                if let UserPart::Features(fs) = &us {
+                    for (n, f) in fs {
+                        match model_ref.iter().find(|e| e.0 == *n) {
+                            None => { kinds.insert("unk"); }
+                            Some((_, old)) if old.to_sf().get_feature_type() != f.to_sf().get_feature_type() => { kinds.insert("ftype"); }
+                            _ => {}
+                        }
+                    }
+                }
+                let shown = if kinds.len() == 2 && (err_s(&e) == "unk" || err_s(&e) == "ftype") { "ftype|unk" } else { err_s(&e) };
+                (format!("err {}", shown), fails, 0usize, "cf_collect_rejected")
+            }
+            Ok(fs) => {
+                if matches!(us, UserPart::Malformed) {
+                    fails.push(("state/collect-malformed", "malformed state_features was accepted".to_string()));
+                }
+                let n_model = model_ref.len();
+                let f_s = |(n, f): &(String, StateFeature)| format!("{}:{}", n, feat_s(f));
+                // the model part: declaration order, later replaces earlier in place
+                let got: Vec<String> = fs.iter().take(n_model).map(f_s).collect();
+                let want: Vec<String> = model_ref.iter().map(|(n, f)| format!("{}:{}", n, feat_s(&f.to_sf()))).collect();
+                if got != want {
+                    fails.push(("state/collect-order", format!("model features collected as {:?}, declared as {:?}", got, want)));
+                }
+                let user_part: Vec<(String, String)> = fs.iter().skip(n_model).map(|e| (e.0.clone(), f_s(e))).collect();
+                let col = format!("ok {} {}", list_s(&got), sorted_feats(&user_part));
                 let mut entries = model_ref.clone();
-                entries.extend(us.clone().unwrap_or_default());
+                if let UserPart::Features(v) = &us {
+                    entries.extend(v.clone());
+                }
                 let expect = ref_extend(&cfg, &entries);
                 match m0.extend(fs) {
                     Err(e) => {
@@ -1440,48 +1523,13 @@ fn run_cf(ctx: &mut Ctx, idx: usize, cfg: Vec<(String, Feat)>, tr: Vec<(String, 
                         match &expect {
                             None => fails.push(("state/extend-kind", "extend replaced a feature by one of a different kind".to_string())),
                             Some(r2) => {
-                                // every feature owns exactly one slot; configured features keep theirs
-                                let mut seen = vec![false; r2.len()];
-                                if n != r2.len() {
-                                    fails.push(("state/slots-bijective", format!("len {} but {} distinct feature names", n, r2.len())));
-                                }
-                                for (name, _) in r2.iter() {
-                                    match m.slot(name) {
-                                        Some(s) if s < seen.len() && !seen[s] => seen[s] = true,
-                                        other => {
-                                            fails.push(("state/slots-bijective", format!("feature {} has slot {:?}; slots must be a permutation of 0..{}", name, other, r2.len())));
-                                            break;
-                                        }
-                                    }
-                                }
-                                for (i, (name, _)) in cfg.iter().enumerate() {
-                                    if m.slot(name) != Some(i) {
-                                        fails.push(("state/extend-slots", format!("configured feature {} moved from slot {} to {:?}", name, i, m.slot(name))));
-                                        break;
-                                    }
-                                }
-                                match m.initial_state() {
-                                    Ok(st) => {
-                                        if st.len() != r2.len() {
-                                            fails.push(("state/initial-state", format!("initial state has {} entries for {} features", st.len(), r2.len())));
-                                        } else {
-                                            for (name, f) in r2.iter() {
-                                                if let Some(sl) = m.slot(name) {
-                                                    if sl < st.len() && st[sl].0.to_bits() != f.initial().to_bits() {
-                                                        fails.push(("state/initial-state", format!("slot {} ({}) starts at {} but the declared initial value is {}", sl, name, st[sl].0, f.initial())));
-                                                        break;
-                                                    }
-                                                }
-                                            }
-                                        }
-                                    }
-                                    Err(e) => fails.push(("state/initial-state", format!("initial_state failed: {}", e))),
+                                // slots: configured features first, then the new names in declaration order
+                                if let Some(f) = check_model(&m, r2, u) {
+                                    fails.push(f);
                                 }
                             }
                         }
-                        let cfgidx: Vec<String> = cfg.iter().map(|(nm, _)| m.get_state_model_index(nm)).collect();
-                        let feats = sorted_feats(&m.iter().map(|(nm, f)| (nm.clone(), format!("{}:{}", nm, feat_s(f)))).collect::<Vec<_>>());
-                        (format!("{} | ok len {} cfgidx {} feats {}", col, n, cfgidx.join(" "), feats), fails, n, "cf_extend_ok")
+                        (format!("{} | ok {}", col, model_s(u, &m)), fails, n, "cf_extend_ok")
                     }
                 }
             }
@@ -1505,6 +1553,108 @@ fn run_cf(ctx: &mut Ctx, idx: usize, cfg: Vec<(String, Feat)>, tr: Vec<(String, 
     }
 }
 
+/// JSON of a feature as the code serialises it
+fn feat_json(f: &Feat) -> serde_json::Value {
+    serde_json::to_value(f.to_sf()).unwrap()
+}
+
+/// something that is not a state feature
+fn bad_feature_json(rng: &mut Rng) -> serde_json::Value {
+    use serde_json::json;
+    match rng.below(17) {
+        16 => json!(["miles", 1.0]),
+        0 => json!(null),
+        1 => json!(3),
+        2 => json!("miles"),
+        3 => json!([]),
+        4 => json!({}),
+        5 => json!({"distance_unit": "furlongs", "initial": 0.0}),
+        6 => json!({"distance_unit": "miles"}),
+        7 => json!({"initial": 1.5}),
+        8 => json!({"distance_unit": "miles", "initial": "0.0"}),
+        9 => json!({"time_unit": "meters", "initial": 0.0}),
+        10 => json!({"type": "soc", "unit": "percent", "format": "floating_point"}),
+        // the form the doc comments of state_model.rs / state_feature.rs show: not what serde accepts
+        11 => json!({"name": "soc", "unit": "percent", "format": {"type": "floating_point", "initial": 0.0}}),
+        12 => json!({"type": "soc", "unit": "percent", "format": {"signed_integer": {"initial": 1.5}}}),
+        13 => json!({"type": "soc", "unit": "percent", "format": {"unsigned_integer": {"initial": -1}}}),
+        14 => json!({"type": "soc", "unit": 5, "format": {"boolean": {"initial": true}}}),
+        _ => json!({"type": "soc", "unit": "percent", "format": {"boolean": {"initial": 1}, "floating_point": {"initial": 0.0}}}),
+    }
+}
+
+/// a feature in one of the JSON shapes serde accepts for it
+fn good_feature_json(rng: &mut Rng, f: &Feat) -> serde_json::Value {
+    use serde_json::json;
+    let plain = feat_json(f);
+    match rng.below(10) {
+        // unknown keys are ignored
+        0 => {
+            let mut o = plain.as_object().cloned().unwrap_or_default();
+            o.insert("comment".to_string(), json!("ignored"));
+            o.insert("index".to_string(), json!(7));
+            serde_json::Value::Object(o)
+        }
+        // key order does not matter
+        1 => {
+            let o = plain.as_object().cloned().unwrap_or_default();
+            let mut r = serde_json::Map::new();
+            for (k, v) in o.iter().rev() {
+                r.insert(k.clone(), v.clone());
+            }
+            serde_json::Value::Object(r)
+        }
+        // integer lexeme for a float field
+        2 => match f {
+            Feat::D(un, _) => json!({"distance_unit": format!("{}", un), "initial": 3}),
+            Feat::T(un, _) => json!({"time_unit": format!("{}", un), "initial": -2}),
+            Feat::E(un, _) => json!({"energy_unit": format!("{}", un), "initial": 0}),
+            _ => plain,
+        },
+        // serde's sequence form of the struct inside a CustomFeatureFormat variant
+        3 => match f {
+            Feat::CF(t, un, i) => json!({"type": t, "unit": un, "format": {"floating_point": [i]}}),
+            Feat::CI(t, un, i) => json!({"type": t, "unit": un, "format": {"signed_integer": [i]}}),
+            Feat::CU(t, un, i) => json!({"type": t, "unit": un, "format": {"unsigned_integer": [i]}}),
+            Feat::CB(t, un, i) => json!({"type": t, "unit": un, "format": {"boolean": [i]}}),
+            _ => plain,
+        },
+        // serde's map form of a unit variant
+        4 => match f {
+            Feat::D(un, i) => json!({"distance_unit": {format!("{}", un): null}, "initial": i}),
+            Feat::T(un, i) => json!({"time_unit": {format!("{}", un): null}, "initial": i}),
+            Feat::E(un, i) => json!({"energy_unit": {format!("{}", un): null}, "initial": i}),
+            _ => plain,
+        },
+        // a later variant's keys next to an earlier variant's: the earlier variant wins
+        5 => {
+            let mut o = plain.as_object().cloned().unwrap_or_default();
+            if o.contains_key("energy_unit") {
+                o.insert("type".to_string(), json!("soc"));
+                o.insert("unit".to_string(), json!("percent"));
+                o.insert("format".to_string(), json!({"boolean": {"initial": true}}));
+            }
+            serde_json::Value::Object(o)
+        }
+        _ => plain,
+    }
+}
+
+/// the feature a `good_feature_json` value stands for (shape 2 changes the initial value)
+fn parsed_back(v: &serde_json::Value) -> Option<Feat> {
+    serde_json::from_value::<StateFeature>(v.clone()).ok().map(|sf| match sf {
+        StateFeature::Distance { distance_unit, initial } => Feat::D(distance_unit, initial.as_f64()),
+        StateFeature::Time { time_unit, initial } => Feat::T(time_unit, initial.as_f64()),
+        StateFeature::Energy { energy_unit, initial } => Feat::E(energy_unit, initial.as_f64()),
+        StateFeature::Custom { r#type, unit, format } => match format {
+            CustomFeatureFormat::FloatingPoint { initial } => Feat::CF(r#type, unit, initial.0),
+            CustomFeatureFormat::SignedInteger { initial } => Feat::CI(r#type, unit, initial),
+            CustomFeatureFormat::UnsignedInteger { initial } => Feat::CU(r#type, unit, initial),
+            CustomFeatureFormat::Boolean { initial } => Feat::CB(r#type, unit, initial),
+        },
+    })
+}
+
 fn cf_cases(ctx: &mut Ctx) {
     let n = ctx.n(1000, 20000);
     for _ in 0..n {
@@ -1516,7 +1666,7 @@ fn cf_cases(ctx: &mut Ctx) {
         let n_cfg = rng.below(u.min(7) + 1);
         let cfg: Vec<(String, Feat)> = names.iter().take(n_cfg).map(|i| (format!("f{}", i), gen_feat_json_safe(&mut rng))).collect();
         // model features: new names, or configured names mostly with the configured kind
-        let mut gen_model = |rng: &mut Rng, k: usize| -> Vec<(String, Feat)> {
+        let gen_model = |rng: &mut Rng, k: usize| -> Vec<(String, Feat)> {
             (0..k)
                 .map(|_| {
                     let name = format!("f{}", rng.below(u));
@@ -1549,36 +1699,872 @@ fn cf_cases(ctx: &mut Ctx) {
                 }
             }
         }
-        let us = if rng.chance(60, 100) {
-            let mut model_names: Vec<(String, Feat)> = vec![];
-            for (nm, f) in tr.iter().chain(ac.iter()) {
-                if let Some(e) = model_names.iter_mut().find(|e| e.0 == *nm) { e.1 = f.clone(); } else { model_names.push((nm.clone(), f.clone())); }
+        let model_names = declared(&tr.iter().chain(ac.iter()).cloned().collect::<Vec<_>>());
+        let (query, us) = match rng.below(20) {
+            0..=5 => (serde_json::json!({"origin_vertex": 0}), UserPart::Absent),
+            // a query that is not an object has no state_features
+            6 => (match rng.below(3) { 0 => serde_json::json!(null), 1 => serde_json::json!([1, 2]), _ => serde_json::json!("q") }, UserPart::Absent),
+            // state_features present but not an object of state features
+            7..=9 => {
+                let v = match rng.below(8) {
+                    0 => serde_json::json!(null),
+                    1 => serde_json::json!(5),
+                    2 => serde_json::json!("f0"),
+                    3 => serde_json::json!([]),
+                    4 => serde_json::json!([{"distance_unit": "miles", "initial": 0.0}]),
+                    _ => {
+                        // one row that is no state feature, among good ones
+                        let mut o = serde_json::Map::new();
+                        for (nm, f) in model_names.iter().take(rng.below(3)) {
+                            o.insert(nm.clone(), feat_json(&same_kind_variant(&mut rng, f)));
+                        }
+                        let pos = format!("f{}", rng.below(u));
+                        o.insert(pos, bad_feature_json(&mut rng));
+                        serde_json::Value::Object(o)
+                    }
+                };
+                (serde_json::json!({"state_features": v, "origin_vertex": 1}), UserPart::Malformed)
             }
-            let mut v: Vec<(String, Feat)> = vec![];
-            let mut bad_used = false;
-            let k = rng.below(4);
-            for _ in 0..k {
-                if !model_names.is_empty() && (bad_used || rng.chance(85, 100)) {
-                    let (nm, f) = rng.pick(&model_names).clone();
-                    if v.iter().any(|e| e.0 == nm) {
-                        continue;
+            _ => {
+                let mut v: Vec<(String, Feat)> = vec![];
+                let mut bad_used = false;
+                let k = rng.below(4);
+                for _ in 0..k {
+                    if !model_names.is_empty() && (bad_used || rng.chance(85, 100)) {
+                        let (nm, f) = rng.pick(&model_names).clone();
+                        if v.iter().any(|e| e.0 == nm) {
+                            continue;
+                        }
+                        v.push((nm, same_kind_variant(&mut rng, &f)));
+                    } else if !bad_used {
+                        // at most one offending entry (which of several errors is reported depends on HashMap order)
+                        bad_used = true;
+                        let nm = if rng.chance(1, 2) || model_names.is_empty() { format!("f{}", u + 1) } else { rng.pick(&model_names).0.clone() };
+                        if v.iter().any(|e| e.0 == nm) {
+                            continue;
+                        }
+                        v.push((nm, gen_feat_json_safe(&mut rng)));
                     }
-                    v.push((nm, same_kind_variant(&mut rng, &f)));
-                } else if !bad_used {
-                    // at most one offending entry (which of several errors is reported depends on HashMap order)
-                    bad_used = true;
-                    let nm = if rng.chance(1, 2) || model_names.is_empty() { format!("f{}", u + 1) } else { rng.pick(&model_names).0.clone() };
-                    if v.iter().any(|e| e.0 == nm) {
-                        continue;
-                    }
-                    v.push((nm, gen_feat_json_safe(&mut rng)));
+                }
+                // every accepted JSON shape of a feature
+                let mut o = serde_json::Map::new();
+                let mut v2 = vec![];
+                for (nm, f) in v {
+                    let j = good_feature_json(&mut rng, &f);
+                    let back = parsed_back(&j).unwrap_or(f);
+                    o.insert(nm.clone(), j);
+                    v2.push((nm, back));
+                }
+                (serde_json::json!({"origin_vertex": 0, "state_features": o}), UserPart::Features(v2))
+            }
+        };
+        run_cf(ctx, idx, u + 2, cfg, tr, ac, query, us);
+    }
+}
+
+// ---------------------------------------------------------------------------------------------
+// direct calls: every method of StateFeature and CustomFeatureFormat
+// ---------------------------------------------------------------------------------------------
+
+fn fmt_s(f: &CustomFeatureFormat) -> String {
+    match f {
+        CustomFeatureFormat::FloatingPoint { initial } => format!("f:{}", fbits(initial.0)),
+        CustomFeatureFormat::SignedInteger { initial } => format!("i:{}", initial),
+        CustomFeatureFormat::UnsignedInteger { initial } => format!("u:{}", initial),
+        CustomFeatureFormat::Boolean { initial } => format!("b:{}", if *initial { 1 } else { 0 }),
+    }
+}
+
+fn res_s<T>(r: &Result<T, StateModelError>, f: impl Fn(&T) -> String) -> String {
+    match r {
+        Ok(x) => format!("ok {}", f(x)),
+        Err(e) => format!("err {}", err_s(e)),
+    }
+}
+
+/// `f64 as i64` written without `as`: truncate toward zero, saturate, NaN is 0
+fn trunc_i64(x: f64) -> i64 {
+    if x.is_nan() {
+        0
+    } else if x >= 9223372036854775808.0 {
+        i64::MAX
+    } else if x <= -9223372036854775808.0 {
+        i64::MIN
+    } else {
+        let t = x.trunc();
+        // |t| < 2^63: exactly representable as an integer
+        format!("{:.0}", t).parse::<i64>().unwrap_or(0)
+    }
+}
+
+fn trunc_u64(x: f64) -> u64 {
+    if x.is_nan() || x <= 0.0 {
+        0
+    } else if x >= 18446744073709551616.0 {
+        u64::MAX
+    } else {
+        format!("{:.0}", x.trunc()).parse::<u64>().unwrap_or(0)
+    }
+}
+
+fn run_feat(ctx: &mut Ctx, idx: usize, f: Feat, g: Feat, x: f64, i: i64, n: u64, b: bool) {
+    // floats travel as raw bit patterns (NaN included)
+    let case = format!("feat {} {} {} {} {} {}", f.text(), g.text(), x.to_bits(), i, n, if b { 1 } else { 0 });
+    let res = catch_unwind(AssertUnwindSafe(|| {
+        let mut fails: Vec<(&'static str, String)> = vec![];
+        let sf = f.to_sf();
+        let sg = g.to_sf();
+        let fm = sf.get_feature_format();
+        let js = serde_json::to_value(&sf).unwrap();
+        let back = serde_json::from_value::<StateFeature>(js.clone());
+        let hx = crate::jsonproto::hex;
+        let du = sf.get_distance_unit();
+        let tu = sf.get_time_unit();
+        let eu = sf.get_energy_unit();
+        let cf = sf.get_custom_feature_format().map(|x| *x);
+        let init = sf.get_initial();
+        let enc_f = fm.encode_f64(&x);
+        let enc_i = fm.encode_i64(&i);
+        let enc_u = fm.encode_u64(&n);
+        let enc_b = fm.encode_bool(&b);
+        let dec_f = fm.decode_f64(&StateVar(x));
+        let dec_i = fm.decode_i64(&StateVar(x));
+        let dec_u = fm.decode_u64(&StateVar(x));
+        let dec_b = fm.decode_bool(&StateVar(x));
+        let sv = |v: &StateVar| fbits(v.0);
+        let out = format!(
+            "type {} unit {} fmt {} init {} du {} tu {} eu {} cf {} eq {} json {} parse {} | name {} def {} init {} encf {} enci {} encu {} encb {} decf {} deci {} decu {} decb {}",
+            hx(&sf.get_feature_type()),
+            hx(&sf.get_feature_unit_name()),
+            fmt_s(&fm),
+            res_s(&init, sv),
+            res_s(&du, |u| format!("{}", u)),
+            res_s(&tu, |u| format!("{}", u)),
+            res_s(&eu, |u| format!("{}", u)),
+            res_s(&cf, fmt_s),
+            if sf == sg { 1 } else { 0 },
+            jb(&js),
+            back.as_ref().map(feat_s).unwrap_or_else(|_| "-".to_string()),
+            fm.name(),
+            fmt_s(&CustomFeatureFormat::default()),
+            res_s(&fm.initial(), sv),
+            res_s(&enc_f, sv),
+            res_s(&enc_i, sv),
+            res_s(&enc_u, sv),
+            res_s(&enc_b, sv),
+            res_s(&dec_f, |v| fbits(*v)),
+            res_s(&dec_i, |v| v.to_string()),
+            res_s(&dec_u, |v| v.to_string()),
+            res_s(&dec_b, |v| (if *v { "1" } else { "0" }).to_string()),
+        );
+        // ---- oracle, from the declaration `f` alone
+        let (kind, ty, un): (u8, String, String) = match &f {
+            Feat::D(u, _) => (0, "distance".to_string(), format!("{}", u)),
+            Feat::T(u, _) => (1, "time".to_string(), format!("{}", u)),
+            Feat::E(u, _) => (2, "energy".to_string(), format!("{}", u)),
+            Feat::CF(t, u, _) | Feat::CI(t, u, _) | Feat::CU(t, u, _) | Feat::CB(t, u, _) => (3, t.clone(), u.clone()),
+        };
+        if sf.get_feature_type() != ty || sf.get_feature_unit_name() != un {
+            fails.push(("feature/names", format!("{:?}: type {} unit {}", f, sf.get_feature_type(), sf.get_feature_unit_name())));
+        }
+        if du.is_ok() != (kind == 0) || tu.is_ok() != (kind == 1) || eu.is_ok() != (kind == 2) || cf.is_ok() != (kind == 3) {
+            fails.push(("feature/getter-kind", format!("{:?}: get_distance_unit {} get_time_unit {} get_energy_unit {} get_custom_feature_format {}", f, du.is_ok(), tu.is_ok(), eu.is_ok(), cf.is_ok())));
+        }
+        for e in [du.as_ref().err(), tu.as_ref().err(), eu.as_ref().err(), cf.as_ref().err()].into_iter().flatten() {
+            if err_s(e) != "funit" {
+                fails.push(("feature/getter-kind", format!("{:?}: wrong-kind getter reports {}", f, e)));
+            }
+        }
+        match &init {
+            Ok(v) if v.0.to_bits() == f.initial().to_bits() || (v.0.is_nan() && f.initial().is_nan()) => {}
+            other => fails.push(("state/initial-state", format!("{:?}: get_initial {:?}, declared {}", f, other.as_ref().map(|v| v.0).ok(), f.initial()))),
+        }
+        let fmt_kind: u8 = match &f {
+            Feat::CI(..) => 1,
+            Feat::CU(..) => 2,
+            Feat::CB(..) => 3,
+            _ => 0,
+        };
+        if kind != 3 && fmt_s(&fm) != "f:0" {
+            fails.push(("feature/format", format!("{:?}: get_feature_format is {} (the default is floating point 0)", f, fmt_s(&fm))));
+        }
+        if (sf == sg) != f.same_kind(&g) {
+            fails.push(("feature/eq", format!("{:?} == {:?} is {}", f, g, sf == sg)));
+        }
+        match &back {
+            Ok(b2) if feat_s(b2) == feat_s(&sf) || x_nan_feature(&f) => {}
+            other => fails.push(("feature/serde-roundtrip", format!("{:?} serialises to {} which reads back as {:?}", f, js, other.as_ref().map(feat_s).ok()))),
+        }
+        let names = ["floating_point", "signed_integer", "unsigned_integer", "boolean"];
+        if fm.name() != names[fmt_kind as usize] || !format!("{}", fm).starts_with(&format!("{}: ", names[fmt_kind as usize])) || format!("{}", sf).is_empty() {
+            fails.push(("codec/name", format!("{:?}: name {} display {}", f, fm.name(), fm)));
+        }
+        // encoders / decoders accept exactly their own kind
+        let oks = [enc_f.is_ok(), enc_i.is_ok(), enc_u.is_ok(), enc_b.is_ok()];
+        for (k, ok) in oks.iter().enumerate() {
+            if *ok != (k as u8 == fmt_kind) {
+                fails.push(("codec/kind", format!("{:?}: encoder #{} ok = {}", f, k, ok)));
+            }
+        }
+        let dks = [dec_f.is_ok(), dec_i.is_ok(), dec_u.is_ok() || matches!(dec_u, Err(StateModelError::ValueError(..))), dec_b.is_ok()];
+        for (k, ok) in dks.iter().enumerate() {
+            if *ok != (k as u8 == fmt_kind) {
+                fails.push(("codec/kind", format!("{:?}: decoder #{} ok = {}", f, k, ok)));
+            }
+        }
+        for e in [enc_f.as_ref().err(), enc_i.as_ref().err(), enc_u.as_ref().err(), enc_b.as_ref().err()].into_iter().flatten() {
+            if err_s(e) != "enc" {
+                fails.push(("codec/kind", format!("{:?}: wrong-kind encoder reports {}", f, e)));
+            }
+        }
+        // values
+        match fmt_kind {
+            0 => {
+                if enc_f.as_ref().ok().map(|v| v.0.to_bits()) != Some(x.to_bits()) || dec_f.as_ref().ok().map(|v| v.to_bits()) != Some(x.to_bits()) {
+                    fails.push(("codec/value", format!("floating point codec is not the identity on {}", x)));
                 }
             }
-            Some(v)
+            1 => {
+                if dec_i.as_ref().ok() != Some(&trunc_i64(x)) {
+                    fails.push(("codec/value", format!("decode_i64({}) = {:?}, truncation gives {}", x, dec_i.as_ref().ok(), trunc_i64(x))));
+                }
+                let e = enc_i.as_ref().ok().map(|v| v.0).unwrap_or(f64::NAN);
+                if i.unsigned_abs() <= (1u64 << 53) && (fm.decode_i64(&StateVar(e)).ok() != Some(i) || format!("{:.0}", e) != i.to_string()) {
+                    fails.push(("codec/value", format!("encode_i64({}) = {}", i, e)));
+                }
+            }
+            2 => {
+                if x < 0.0 {
+                    if !matches!(dec_u, Err(StateModelError::ValueError(..))) {
+                        fails.push(("codec/value", format!("decode_u64({}) = {:?}: a negative value must be a ValueError", x, dec_u.as_ref().ok())));
+                    }
+                } else if dec_u.as_ref().ok() != Some(&trunc_u64(x)) {
+                    fails.push(("codec/value", format!("decode_u64({}) = {:?}, truncation gives {}", x, dec_u.as_ref().ok(), trunc_u64(x))));
+                }
+                let e = enc_u.as_ref().ok().map(|v| v.0).unwrap_or(f64::NAN);
+                if n <= (1u64 << 53) && (fm.decode_u64(&StateVar(e)).ok() != Some(n) || format!("{:.0}", e) != n.to_string()) {
+                    fails.push(("codec/value", format!("encode_u64({}) = {}", n, e)));
+                }
+            }
+            _ => {
+                let e = enc_b.as_ref().ok().map(|v| v.0).unwrap_or(f64::NAN);
+                if e != (if b { 1.0 } else { 0.0 }) || fm.decode_bool(&StateVar(e)).ok() != Some(b) {
+                    fails.push(("codec/value", format!("encode_bool({}) = {}", b, e)));
+                }
+                if dec_b.as_ref().ok() != Some(&(x != 0.0)) {
+                    fails.push(("codec/value", format!("decode_bool({}) = {:?}", x, dec_b.as_ref().ok())));
+                }
+            }
+        }
+        (out, fails)
+    }));
+    match res {
+        Ok((out, fails)) => {
+            ctx.emit(idx, case.clone(), norm(out));
+            ctx.count("feat_direct");
+            ctx.nontrivial(&case);
+            if let Some((key, msg)) = fails.first() {
+                ctx.fail(idx, key, msg.clone());
+            }
+        }
+        Err(_) => {
+            ctx.emit(idx, case, "panic".to_string());
+            ctx.fail(idx, "feature/panic", "a StateFeature / CustomFeatureFormat method panicked".to_string());
+        }
+    }
+}
+
+/// a non-finite initial value cannot be written as a JSON number (serde_json writes null)
+fn x_nan_feature(f: &Feat) -> bool {
+    match f {
+        Feat::D(_, i) | Feat::T(_, i) | Feat::E(_, i) | Feat::CF(_, _, i) => !i.is_finite(),
+        _ => false,
+    }
+}
+
+fn edge_value(rng: &mut Rng) -> f64 {
+    let vals = [
+        0.0, -0.0, 0.5, -0.5, 1.5, 2.5, -2.5, 0.999999, -0.999999, 1.0, -1.0,
+        9007199254740992.0, 9007199254740993.0, -9007199254740992.0,
+        9223372036854775807.0, 9223372036854775808.0, -9223372036854775808.0, -9223372036854777856.0,
+        18446744073709551615.0, 18446744073709551616.0, 1e30, -1e30, 4.9e-324, -4.9e-324,
+        f64::MAX, f64::MIN, f64::INFINITY, f64::NEG_INFINITY, f64::NAN,
+    ];
+    if rng.chance(2, 3) {
+        *rng.pick(&vals)
+    } else {
+        nice(rng)
+    }
+}
+
+fn feat_cases(ctx: &mut Ctx) {
+    let s = |x: &str| x.to_string();
+    // ---- corpus: one feature of each kind against every kind, edge values
+    let kinds: Vec<Feat> = vec![
+        Feat::D(DistanceUnit::Miles, 1.5),
+        Feat::T(TimeUnit::Minutes, 0.0),
+        Feat::E(EnergyUnit::KilowattHours, -3.0),
+        Feat::CF(s("soc"), s("percent"), 100.0),
+        Feat::CI(s("count"), s("n"), i64::MIN),
+        Feat::CU(s("count"), s("n"), u64::MAX),
+        Feat::CB(s("flag"), s("bool"), true),
+        Feat::CF(s("distance"), s("miles"), -0.0),
+        Feat::CI(s("soc"), s("percent"), (1i64 << 53) + 1),
+    ];
+    let xs = [f64::NAN, -0.0, 2.5, -2.5, 0.5, 9007199254740993.0, 18446744073709551616.0, -1.0, f64::INFINITY, f64::NEG_INFINITY, 9223372036854775808.0];
+    let mut k = 0usize;
+    for f in &kinds {
+        for g in &kinds {
+            let Some(idx) = ctx.begin() else { k += 1; continue };
+            let x = xs[k % xs.len()];
+            run_feat(ctx, idx, f.clone(), g.clone(), x, [i64::MAX, i64::MIN, (1 << 53) + 1, -7][k % 4], [u64::MAX, (1 << 53) + 1, 0, 12][k % 4], k % 2 == 0);
+            k += 1;
+        }
+    }
+    // ---- generated
+    let n = ctx.n(1500, 30000);
+    for _ in 0..n {
+        let Some(idx) = ctx.begin() else { continue };
+        let mut rng = Rng::for_case(ctx.seed, 11_000_011, idx as u64);
+        let f = gen_feat(&mut rng);
+        let g = if rng.chance(1, 3) {
+            match &f {
+                Feat::CF(t, u, _) | Feat::CI(t, u, _) | Feat::CU(t, u, _) | Feat::CB(t, u, _) if rng.chance(1, 2) => Feat::CB(t.clone(), u.clone(), true),
+                _ => f.clone(),
+            }
         } else {
-            None
+            gen_feat(&mut rng)
         };
-        run_cf(ctx, idx, cfg, tr, ac, us);
+        let x = edge_value(&mut rng);
+        run_feat(ctx, idx, f, g, x, gen_i64(&mut rng), gen_u64(&mut rng), rng.chance(1, 2));
+    }
+}
+
+// ---------------------------------------------------------------------------------------------
+// StateModel::try_from(&json) and StateFeature from JSON
+// ---------------------------------------------------------------------------------------------
+
+fn run_parse(ctx: &mut Ctx, idx: usize, j: serde_json::Value, expect: Option<bool>) {
+    let case = format!("parse {}", crate::jsonproto::enc(&j));
+    let res = catch_unwind(AssertUnwindSafe(|| serde_json::from_value::<StateFeature>(j.clone())));
+    match res {
+        Ok(r) => {
+            ctx.emit(idx, case.clone(), r.as_ref().map(feat_s).unwrap_or_else(|_| "-".to_string()));
+            ctx.count(if r.is_ok() { "parse_feature_ok" } else { "parse_feature_rejected" });
+            ctx.nontrivial(&case);
+            if let Some(e) = expect {
+                if e != r.is_ok() {
+                    ctx.fail(idx, if e { "state/tryfrom-rejects" } else { "state/tryfrom-accepts-malformed" }, format!("{} parsed as {:?}", j, r.as_ref().map(feat_s).ok()));
+                }
+            }
+        }
+        Err(_) => {
+            ctx.emit(idx, case, "panic".to_string());
+            ctx.fail(idx, "state/panic", "StateFeature deserialisation panicked".to_string());
+        }
+    }
+}
+
+fn run_smjson(ctx: &mut Ctx, idx: usize, u: usize, j: serde_json::Value, expect: Option<Vec<(String, Feat)>>) {
+    let case = format!("smjson {} {}", u, crate::jsonproto::enc(&j));
+    let res = catch_unwind(AssertUnwindSafe(|| {
+        let mut fails: Vec<(&'static str, String)> = vec![];
+        let r = StateModel::try_from(&j);
+        let out = match &r {
+            Ok(m) => format!("ok {}", model_s(u, m)),
+            Err(e) => format!("err {}", err_s(e)),
+        };
+        match (&r, &expect) {
+            (Ok(m), Some(fs)) => {
+                // slots follow the object's key order
+                if let Some(f) = check_model(m, fs, u) {
+                    fails.push(f);
+                }
+            }
+            (Err(e), Some(_)) => fails.push(("state/tryfrom-rejects", format!("a well-formed [state] table was rejected: {}", e))),
+            (Ok(_), None) => fails.push(("state/tryfrom-accepts-malformed", format!("a malformed [state] table was accepted: {}", j))),
+            (Err(e), None) => {
+                if err_s(e) != "build" {
+                    fails.push(("state/tryfrom-rejects", format!("malformed table reported as {}", e)));
+                }
+            }
+        }
+        (out, fails, r.as_ref().map(|m| m.len()).unwrap_or(0), r.is_ok())
+    }));
+    match res {
+        Ok((out, fails, n, ok)) => {
+            ctx.emit(idx, case.clone(), norm(out));
+            ctx.count(if ok { "smjson_ok" } else { "smjson_rejected" });
+            if n >= 6 || !ok {
+                ctx.nontrivial(&case);
+            }
+            if let Some((key, msg)) = fails.first() {
+                ctx.fail(idx, key, msg.clone());
+            }
+        }
+        Err(_) => {
+            ctx.emit(idx, case, "panic".to_string());
+            ctx.fail(idx, "state/panic", "StateModel::try_from panicked".to_string());
+        }
+    }
+}
+
+fn smjson_cases(ctx: &mut Ctx) {
+    use serde_json::json;
+    // ---- corpus: every accepted and rejected shape of one feature
+    let shapes: Vec<(serde_json::Value, Option<bool>)> = vec![
+        (json!({"distance_unit": "kilometers", "initial": 0.0}), Some(true)),
+        (json!({"time_unit": "minutes", "initial": 0.0}), Some(true)),
+        (json!({"energy_unit": "gallons_gasoline", "initial": 20}), Some(true)),
+        (json!({"type": "soc", "unit": "percent", "format": {"floating_point": {"initial": 0.0}}}), Some(true)),
+        (json!({"type": "soc", "unit": "percent", "format": {"signed_integer": {"initial": -4}}}), Some(true)),
+        (json!({"type": "soc", "unit": "percent", "format": {"unsigned_integer": {"initial": 18446744073709551615u64}}}), Some(true)),
+        (json!({"type": "soc", "unit": "percent", "format": {"boolean": {"initial": false}}}), Some(true)),
+        // the shape the doc comments of state_model.rs and state_feature.rs give for a custom feature
+        (json!({"name": "soc", "unit": "percent", "format": {"type": "floating_point", "initial": 0.0}}), None),
+        (json!({"type": "soc", "unit": "percent", "format": {"type": "floating_point", "initial": 0.0}}), None),
+        // serde's alternative encodings
+        (json!(["miles", 1.0]), Some(false)),
+        (json!(["miles", 1.0, 2.0]), None),
+        (json!(["miles"]), None),
+        (json!({"distance_unit": {"miles": null}, "initial": 1.0}), None),
+        (json!({"distance_unit": {"miles": {}}, "initial": 1.0}), None),
+        (json!({"distance_unit": {"miles": null, "feet": null}, "initial": 1.0}), None),
+        (json!(["soc", "percent", {"boolean": [true]}]), Some(false)),
+        (json!({"type": "soc", "unit": "percent", "format": {"boolean": [true]}}), None),
+        (json!({"type": "soc", "unit": "percent", "format": ["boolean", true]}), None),
+        (json!({"type": "soc", "unit": "percent", "format": {"boolean": [true, false]}}), None),
+        (json!({"type": "soc", "unit": "percent", "format": {"boolean": []}}), None),
+        (json!({"type": "soc", "unit": "percent", "format": {"boolean": true}}), None),
+        (json!({"type": "soc", "unit": "percent", "format": {"signed_integer": {"initial": 9223372036854775808u64}}}), Some(false)),
+        (json!({"type": "soc", "unit": "percent", "format": {"signed_integer": {"initial": 1.0}}}), Some(false)),
+        (json!({"type": "soc", "unit": "percent", "format": {"floating_point": {"initial": 7}}}), Some(true)),
+        (json!({"type": "soc", "unit": "percent", "format": {"floating_point": {"initial": null}}}), Some(false)),
+        (json!({"type": "soc", "unit": "percent", "format": {"Boolean": {"initial": true}}}), Some(false)),
+        (json!({"distance_unit": "Miles", "initial": 0.0}), Some(false)),
+        (json!({"distance_unit": "miles", "initial": 0.0, "time_unit": "hours"}), Some(true)),
+        (json!({"time_unit": "hours", "distance_unit": "leagues", "initial": 0.0}), Some(true)),
+        (json!({"distance_unit": "miles", "initial": true}), Some(false)),
+        (json!({"distance_unit": 2, "initial": 0.0}), Some(false)),
+        (json!({"distance_unit": null, "initial": 0.0}), Some(false)),
+        (json!({"energy_unit": "kilowatt_hours", "initial": 1e308}), Some(true)),
+        (json!({"energy_unit": "kilowatt_hours", "initial": -0.0}), Some(true)),
+    ];
+    for (j, e) in shapes.iter() {
+        let Some(idx) = ctx.begin() else { continue };
+        run_parse(ctx, idx, j.clone(), *e);
+    }
+    for k in 0..16 {
+        let Some(idx) = ctx.begin() else { continue };
+        let mut rng = Rng::new(k);
+        // bad_feature_json(k) deterministically
+        let mut j = bad_feature_json(&mut rng);
+        for _ in 0..64 {
+            if rng.below(16) == k as usize {
+                break;
+            }
+            j = bad_feature_json(&mut rng);
+        }
+        run_parse(ctx, idx, j, Some(false));
+    }
+    // ---- corpus: whole tables
+    let tables: Vec<(serde_json::Value, Option<Vec<(String, Feat)>>)> = vec![
+        (json!({}), Some(vec![])),
+        (json!(null), None),
+        (json!([]), None),
+        (json!("state"), None),
+        (json!(4), None),
+        (json!([{"distance_unit": "miles", "initial": 0.0}]), None),
+        (
+            json!({"f2": {"distance_unit": "kilometers", "initial": 0.0}, "f0": {"time_unit": "minutes", "initial": 0.0},
+                   "f1": {"type": "soc", "unit": "percent", "format": {"floating_point": {"initial": 0.0}}}}),
+            Some(vec![
+                ("f2".to_string(), Feat::D(DistanceUnit::Kilometers, 0.0)),
+                ("f0".to_string(), Feat::T(TimeUnit::Minutes, 0.0)),
+                ("f1".to_string(), Feat::CF("soc".to_string(), "percent".to_string(), 0.0)),
+            ]),
+        ),
+        // the documented example of state_model.rs (TryFrom): its custom row is not what serde accepts
+        (
+            json!({"distance": {"distance_unit": "kilometers", "initial": 0.0}, "time": {"time_unit": "minutes", "initial": 0.0},
+                   "battery_soc": {"name": "soc", "unit": "percent", "format": {"type": "floating_point", "initial": 0.0}}}),
+            None,
+        ),
+    ];
+    for (j, e) in tables {
+        let Some(idx) = ctx.begin() else { continue };
+        run_smjson(ctx, idx, 3, j, e);
+    }
+    // ---- generated tables
+    let n = ctx.n(800, 16000);
+    for _ in 0..n {
+        let Some(idx) = ctx.begin() else { continue };
+        let mut rng = Rng::for_case(ctx.seed, 1_100_011, idx as u64);
+        let nf = match rng.below(10) { 0 => 0, 1..=2 => 1 + rng.below(4), 3 => 5, _ => 6 + rng.below(7) };
+        let u = (nf + rng.below(3)).min(13);
+        let nf = nf.min(u);
+        let mut names: Vec<usize> = (0..u).collect();
+        rng.shuffle(&mut names);
+        let mut o = serde_json::Map::new();
+        let mut expect: Vec<(String, Feat)> = vec![];
+        for i in names.iter().take(nf) {
+            let f = gen_feat_json_safe(&mut rng);
+            let j = good_feature_json(&mut rng, &f);
+            let back = parsed_back(&j).unwrap_or(f);
+            o.insert(format!("f{}", i), j);
+            expect.push((format!("f{}", i), back));
+        }
+        let malformed = rng.chance(1, 4);
+        if malformed {
+            let name = format!("f{}", rng.below(u.max(1)));
+            o.insert(name, bad_feature_json(&mut rng));
+        }
+        run_smjson(ctx, idx, u, serde_json::Value::Object(o), if malformed { None } else { Some(expect) });
+    }
+}
+
+// ---------------------------------------------------------------------------------------------
+// SearchApp::build_search_instance: one application, a sequence of queries
+// ---------------------------------------------------------------------------------------------
+use routee_compass::app::compass::config::cost_model::cost_model_service::CostModelService;
+use routee_compass::app::search::search_app::SearchApp;
+use routee_compass::app::compass::search_orientation::SearchOrientation;
+use routee_compass_core::algorithm::search::search_algorithm::SearchAlgorithm;
+use routee_compass_core::algorithm::search::search_error::SearchError;
+use routee_compass_core::model::access::access_model_service::AccessModelService;
+use routee_compass_core::model::cost::cost_aggregation::CostAggregation;
+use routee_compass_core::model::frontier::default::no_restriction::NoRestriction;
+use routee_compass_core::model::frontier::frontier_model::FrontierModel;
+use routee_compass_core::model::frontier::frontier_model_error::FrontierModelError;
+use routee_compass_core::model::frontier::frontier_model_service::FrontierModelService;
+use routee_compass_core::model::network::graph::Graph;
+use routee_compass_core::model::termination::termination_model::TerminationModel;
+use routee_compass_core::model::traversal::traversal_model_service::TraversalModelService;
+use std::collections::HashMap;
+
+fn pick_variant(q: &serde_json::Value, key: &str, fail_key: &str, vs: &[Vec<(String, StateFeature)>]) -> Option<Vec<(String, StateFeature)>> {
+    if q.get(fail_key).is_some() {
+        return None;
+    }
+    match q.get(key) {
+        None => vs.first().cloned(),
+        Some(v) => v.as_u64().and_then(|i| vs.get(i as usize).cloned()),
+    }
+}
+
+struct TmSvc(Vec<Vec<(String, StateFeature)>>);
+impl TraversalModelService for TmSvc {
+    fn build(&self, q: &serde_json::Value) -> Result<Arc<dyn TraversalModel>, TraversalModelError> {
+        pick_variant(q, "tm", "tm_fail", &self.0)
+            .map(|f| Arc::new(Tm(f)) as Arc<dyn TraversalModel>)
+            .ok_or_else(|| TraversalModelError::BuildError("requested by the query".to_string()))
+    }
+}
+struct AmSvc(Vec<Vec<(String, StateFeature)>>);
+impl AccessModelService for AmSvc {
+    fn build(&self, q: &serde_json::Value) -> Result<Arc<dyn AccessModel>, AccessModelError> {
+        pick_variant(q, "am", "am_fail", &self.0)
+            .map(|f| Arc::new(Am(f)) as Arc<dyn AccessModel>)
+            .ok_or_else(|| AccessModelError::BuildError("requested by the query".to_string()))
+    }
+}
+struct FmSvc;
+impl FrontierModelService for FmSvc {
+    fn build(&self, q: &serde_json::Value, _m: Arc<StateModel>) -> Result<Arc<dyn FrontierModel>, FrontierModelError> {
+        if q.get("fm_fail").is_some() {
+            Err(FrontierModelError::BuildError("requested by the query".to_string()))
+        } else {
+            Ok(Arc::new(NoRestriction {}))
+        }
+    }
+}
+
+fn search_err_s(e: &SearchError) -> String {
+    match e {
+        SearchError::TraversalModelFailure { .. } => "traversal".to_string(),
+        SearchError::AccessModelFailure { .. } => "access".to_string(),
+        SearchError::StateFailure { source } => format!("state:{}", err_s(source)),
+        SearchError::BuildError(_) => "cost".to_string(),
+        SearchError::FrontierModelFailure { .. } => "frontier".to_string(),
+        _ => "other".to_string(),
+    }
+}
+
+fn run_bsi(ctx: &mut Ctx, idx: usize, u: usize, cfg: Vec<(String, Feat)>, trs: Vec<Vec<(String, Feat)>>, acs: Vec<Vec<(String, Feat)>>, queries: Vec<(serde_json::Value, UserPart)>) {
+    let variants_text = |vs: &[Vec<(String, Feat)>]| {
+        let mut v = vec![vs.len().to_string()];
+        v.extend(vs.iter().map(|x| feats_text(x)));
+        v.join(" ")
+    };
+    let case = format!(
+        "bsi {} {} {} {} {} {}",
+        u,
+        feats_text(&cfg),
+        variants_text(&trs),
+        variants_text(&acs),
+        queries.len(),
+        queries.iter().map(|q| crate::jsonproto::enc(&q.0)).collect::<Vec<_>>().join(" ")
+    );
+    let to_sf = |fs: &[(String, Feat)]| -> Vec<(String, StateFeature)> { fs.iter().map(|(n, f)| (n.clone(), f.to_sf())).collect() };
+    let res = catch_unwind(AssertUnwindSafe(|| {
+        let mut fails: Vec<(&'static str, String)> = vec![];
+        let weights: HashMap<String, f64> = (0..20).map(|i| (format!("f{}", i), 1.0)).collect();
+        let app = SearchApp::new(
+            SearchAlgorithm::Dijkstra,
+            // one vertex, no edge: a destination-less search from vertex 0 ends at once with an empty tree
+            Graph {
+                adj: vec![CompactOrderedHashMap::empty()].into_boxed_slice(),
+                rev: vec![CompactOrderedHashMap::empty()].into_boxed_slice(),
+                edges: vec![].into_boxed_slice(),
+                vertices: vec![Vertex::new(0, 0.0, 0.0)].into_boxed_slice(),
+            },
+            Arc::new(StateModel::new(to_sf(&cfg))),
+            Arc::new(TmSvc(trs.iter().map(|x| to_sf(x)).collect())),
+            Arc::new(AmSvc(acs.iter().map(|x| to_sf(x)).collect())),
+            CostModelService {
+                vehicle_rates: Arc::new(HashMap::new()),
+                network_rates: Arc::new(HashMap::new()),
+                weights: Arc::new(weights),
+                cost_aggregation: CostAggregation::Sum,
+                ignore_unknown_weights: true,
+            },
+            Arc::new(FmSvc),
+            TerminationModel::IterationsLimit { limit: 10 },
+        );
+        let cfg_before = model_s(u, &app.state_model);
+        let cfg_ref = declared(&cfg);
+        let mut outs: Vec<String> = vec![];
+        let mut seen: Vec<(String, String)> = vec![];
+        let mut n_ok = 0usize;
+        let mut max_len = 0usize;
+        for (qi, (q, us)) in queries.iter().enumerate() {
+            let r = app.build_search_instance(q);
+            let rs = match &r {
+                Ok(si) => {
+                    n_ok += 1;
+                    max_len = max_len.max(si.state_model.len());
+                    format!("ok {}", model_s(u, &si.state_model))
+                }
+                Err(e) => format!("err {}", search_err_s(e)),
+            };
+            // nothing leaks: the application's own model is untouched, and the answer to a query does
+            // not depend on the queries before it
+            if model_s(u, &app.state_model) != cfg_before {
+                fails.push(("state/per-query-leak", format!("query #{} {} changed the application's state model", qi, q)));
+            }
+            let qtext = q.to_string();
+            match seen.iter().find(|e| e.0 == qtext) {
+                Some((_, prev)) if *prev != rs => fails.push(("state/per-query-leak", format!("query #{} {} answered differently than before", qi, q))),
+                Some(_) => {}
+                None => seen.push((qtext, rs.clone())),
+            }
+            // expected outcome from the declarations
+            let tr = pick_variant(q, "tm", "tm_fail", &trs.iter().map(|x| to_sf(x)).collect::<Vec<_>>()).map(|_| ());
+            let tr_feats = if tr.is_some() { q.get("tm").and_then(|v| v.as_u64()).map(|i| trs[i as usize].clone()).or_else(|| trs.first().cloned()) } else { None };
+            let ac = pick_variant(q, "am", "am_fail", &acs.iter().map(|x| to_sf(x)).collect::<Vec<_>>()).map(|_| ());
+            let ac_feats = if ac.is_some() { q.get("am").and_then(|v| v.as_u64()).map(|i| acs[i as usize].clone()).or_else(|| acs.first().cloned()) } else { None };
+            let expect: Result<Vec<(String, Feat)>, &str> = (|| {
+                let trf = tr_feats.ok_or("traversal")?;
+                let acf = ac_feats.ok_or("access")?;
+                let model_ref = declared(&trf.iter().chain(acf.iter()).cloned().collect::<Vec<_>>());
+                let mut entries = model_ref.clone();
+                match us {
+                    UserPart::Malformed => return Err("state:build"),
+                    UserPart::Absent => {}
+                    UserPart::Features(v) => {
+                        for (nm, f) in v {
+                            match model_ref.iter().find(|e| e.0 == *nm) {
+                                None => return Err("state:unk"),
+                                Some((_, old)) if old.to_sf().get_feature_type() != f.to_sf().get_feature_type() => return Err("state:ftype"),
+                                _ => {}
+                            }
+                        }
+                        entries.extend(v.clone());
+                    }
+                }
+                let m = ref_extend(&cfg_ref, &entries).ok_or("state:build")?;
+                if q.get("weights").is_some() || m.is_empty() {
+                    return Err("cost");
+                }
+                if q.get("fm_fail").is_some() {
+                    return Err("frontier");
+                }
+                Ok(m)
+            })();
+            match (&r, &expect) {
+                (Ok(si), Ok(m)) => {
+                    if let Some(f) = check_model(&si.state_model, m, u) {
+                        fails.push((f.0, format!("query #{} {}: {}", qi, q, f.1)));
+                    }
+                }
+                (Err(e), Err(k)) => {
+                    if search_err_s(e) != *k {
+                        fails.push(("state/per-query-error", format!("query #{} {} failed with {} (expected {})", qi, q, search_err_s(e), k)));
+                    }
+                }
+                (Ok(_), Err(k)) => fails.push(("state/per-query-error", format!("query #{} {} was accepted (expected {})", qi, q, k))),
+                (Err(e), Ok(_)) => fails.push(("state/per-query-error", format!("query #{} {} failed: {}", qi, q, e))),
+            }
+            // the whole entry points: the instance they hand back carries the same per-query state model
+            // (the searches themselves belong to C01-C05 / C20)
+            for orientation in [SearchOrientation::Vertex, SearchOrientation::Edge] {
+                let ran = match orientation {
+                    SearchOrientation::Vertex => app.run(q, &orientation).map(|x| x.1),
+                    SearchOrientation::Edge => app.run_edge_oriented(q).map(|x| x.1),
+                };
+                match (&r, &ran) {
+                    (Ok(si), Ok(si2)) => {
+                        if model_s(u, &si.state_model) != model_s(u, &si2.state_model) {
+                            fails.push(("state/per-query-leak", format!("query #{} {}: run() searched with another state model than build_search_instance built", qi, q)));
+                        }
+                    }
+                    (Err(_), Ok(_)) => fails.push(("state/per-query-error", format!("query #{} {}: run() succeeded although build_search_instance fails", qi, q))),
+                    _ => {}
+                }
+                if model_s(u, &app.state_model) != cfg_before {
+                    fails.push(("state/per-query-leak", format!("query #{} {}: run() changed the application's state model", qi, q)));
+                }
+            }
+            let names_joined = app.state_model.get_names();
+            let names_list: Vec<String> = if names_joined.is_empty() { vec![] } else { names_joined.split(',').map(|x| x.to_string()).collect() };
+            outs.push(format!("| {} | cfg {}", rs, list_s(&names_list)));
+        }
+        (outs.join(" "), fails, n_ok, max_len)
+    }));
+    match res {
+        Ok((out, fails, n_ok, max_len)) => {
+            ctx.emit(idx, case.clone(), norm(out));
+            ctx.count_n("bsi_queries", queries.len() as u64);
+            ctx.count_n("bsi_queries_ok", n_ok as u64);
+            if max_len >= 6 {
+                ctx.nontrivial(&case);
+            }
+            if let Some((key, msg)) = fails.first() {
+                ctx.fail(idx, key, msg.clone());
+            }
+        }
+        Err(_) => {
+            ctx.emit(idx, case, "panic".to_string());
+            ctx.fail(idx, "state/panic", "build_search_instance panicked".to_string());
+        }
+    }
+}
+
+fn bsi_cases(ctx: &mut Ctx) {
+    let n = ctx.n(400, 8000);
+    for _ in 0..n {
+        let Some(idx) = ctx.begin() else { continue };
+        let mut rng = Rng::for_case(ctx.seed, 11_111_111, idx as u64);
+        let u = 3 + rng.below(10);
+        let mut names: Vec<usize> = (0..u).collect();
+        rng.shuffle(&mut names);
+        let n_cfg = rng.below(u.min(6) + 1);
+        let cfg: Vec<(String, Feat)> = names.iter().take(n_cfg).map(|i| (format!("f{}", i), gen_feat_json_safe(&mut rng))).collect();
+        // a kind per name, so that variants mostly agree with each other and with the configuration
+        let kinds: Vec<Feat> = (0..u).map(|i| cfg.iter().find(|e| e.0 == format!("f{}", i)).map(|e| e.1.clone()).unwrap_or_else(|| gen_feat_json_safe(&mut rng))).collect();
+        let gen_list = |rng: &mut Rng, k: usize| -> Vec<(String, Feat)> {
+            (0..k)
+                .map(|_| {
+                    let i = rng.below(u);
+                    let f = if rng.chance(95, 100) { same_kind_variant(rng, &kinds[i]) } else { gen_feat_json_safe(rng) };
+                    (format!("f{}", i), f)
+                })
+                .collect()
+        };
+        let trs: Vec<Vec<(String, Feat)>> = (0..1 + rng.below(3)).map(|_| { let k = rng.below(6); gen_list(&mut rng, k) }).collect();
+        let acs: Vec<Vec<(String, Feat)>> = (0..1 + rng.below(2)).map(|_| { let k = rng.below(4); gen_list(&mut rng, k) }).collect();
+        let nq = 2 + rng.below(6);
+        let mut queries: Vec<(serde_json::Value, UserPart)> = vec![];
+        for _ in 0..nq {
+            if !queries.is_empty() && rng.chance(25, 100) {
+                // the same query again
+                let q = rng.pick(&queries).clone();
+                queries.push(q);
+                continue;
+            }
+            let mut o = serde_json::Map::new();
+            o.insert("origin_vertex".to_string(), serde_json::json!(0));
+            let ti = rng.below(trs.len() + 1);
+            if rng.chance(2, 3) {
+                o.insert("tm".to_string(), serde_json::json!(ti));
+            }
+            let ai = rng.below(acs.len());
+            if rng.chance(1, 2) {
+                o.insert("am".to_string(), serde_json::json!(ai));
+            }
+            match rng.below(24) {
+                0 => { o.insert("tm_fail".to_string(), serde_json::json!(true)); }
+                1 => { o.insert("am_fail".to_string(), serde_json::json!(true)); }
+                2 => { o.insert("fm_fail".to_string(), serde_json::json!(true)); }
+                3 => { o.insert("weights".to_string(), serde_json::json!({})); }
+                _ => {}
+            }
+            let tr_f = if o.contains_key("tm") { trs.get(ti).cloned() } else { trs.first().cloned() }.unwrap_or_default();
+            let ac_f = if o.contains_key("am") { acs.get(ai).cloned() } else { acs.first().cloned() }.unwrap_or_default();
+            let model_names = declared(&tr_f.iter().chain(ac_f.iter()).cloned().collect::<Vec<_>>());
+            let us = match rng.below(10) {
+                0..=3 => UserPart::Absent,
+                4 => {
+                    o.insert("state_features".to_string(), match rng.below(3) { 0 => serde_json::json!(null), 1 => serde_json::json!([1]), _ => serde_json::json!({"f0": bad_feature_json(&mut rng)}) });
+                    UserPart::Malformed
+                }
+                _ => {
+                    let mut so = serde_json::Map::new();
+                    let mut v = vec![];
+                    let k = rng.below(4);
+                    let mut bad_used = false;
+                    for _ in 0..k {
+                        if !model_names.is_empty() && (bad_used || rng.chance(90, 100)) {
+                            let (nm, f) = rng.pick(&model_names).clone();
+                            if v.iter().any(|e: &(String, Feat)| e.0 == nm) {
+                                continue;
+                            }
+                            let f2 = same_kind_variant(&mut rng, &f);
+                            so.insert(nm.clone(), feat_json(&f2));
+                            v.push((nm, f2));
+                        } else if !bad_used {
+                            bad_used = true;
+                            let nm = if rng.chance(1, 2) || model_names.is_empty() { format!("f{}", u + 1) } else { rng.pick(&model_names).0.clone() };
+                            if v.iter().any(|e: &(String, Feat)| e.0 == nm) {
+                                continue;
+                            }
+                            let f2 = gen_feat_json_safe(&mut rng);
+                            so.insert(nm.clone(), feat_json(&f2));
+                            v.push((nm, f2));
+                        }
+                    }
+                    o.insert("state_features".to_string(), serde_json::Value::Object(so));
+                    UserPart::Features(v)
+                }
+            };
+            queries.push((serde_json::Value::Object(o), us));
+        }
+        run_bsi(ctx, idx, u + 2, cfg, trs, acs, queries);
+    }
+}
+
+/// `StateModel::empty()` and `StateModel::from(vec)` as starting points of the state-model stream
+fn sm_other_constructors(ctx: &mut Ctx) {
+    let n = ctx.n(120, 2400);
+    for k in 0..n {
+        let Some(idx) = ctx.begin() else { continue };
+        let mut rng = Rng::for_case(ctx.seed, 110_011, idx as u64);
+        let u = 2 + rng.below(10);
+        let empty = k % 2 == 0;
+        let feats: Vec<(String, Feat)> = if empty { vec![] } else { (0..rng.below(u + 1)).map(|i| (format!("f{}", i), gen_feat(&mut rng))).collect() };
+        let mut r = declared(&feats);
+        let mut ops = vec![SmOp::Init];
+        for _ in 0..(3 + rng.below(20)) {
+            let op = gen_sm_op(&mut rng, u, &r);
+            if let SmOp::Ext(fs) = &op {
+                if let Some(r2) = ref_extend(&r, fs) {
+                    r = r2;
+                }
+            }
+            ops.push(op);
+        }
+        ctx.count(if empty { "sm_empty" } else { "sm_from_vec" });
+        run_sm_kind(ctx, idx, if empty { "sme" } else { "smf" }, u, feats, ops);
     }
 }
 
@@ -1586,5 +2572,9 @@ pub fn run(ctx: &mut Ctx) -> &'static str {
     container_cases(ctx);
     sm_cases(ctx);
     cf_cases(ctx);
-    "container: operation histories (empty/new/From/from_iter, then inserts of new keys and overwrites) over universes of 0..40 keys, every accessor observed after every operation; state model: 0..12 features of all seven kinds and all units built by new and extended, then initial_state / get / set / add / custom codecs / get_delta / serialize sequences, doubles compared bit-exactly; collect_features + extend with configured, traversal-model, access-model and query features; non-trivial = distinct history in which the container (or the state model) holds 6 or more entries at some point (beyond every small-size representation); distinct by full case text"
+    feat_cases(ctx);
+    smjson_cases(ctx);
+    bsi_cases(ctx);
+    sm_other_constructors(ctx);
+    "container: operation histories (empty/new/From/from_iter, then inserts of new keys and overwrites) over universes of 0..40 keys, every accessor observed after every operation; state model: 0..12 features of all seven kinds and all units built by new / from / empty / try_from(JSON) and extended, then initial_state / get / set / add / custom codecs / get_delta / serialize sequences, doubles compared bit-exactly; collect_features + extend with configured, traversal-model, access-model and query features (well-formed in every shape serde accepts, unknown names, other types, malformed); every StateFeature / CustomFeatureFormat method called directly on every kind with edge values (NaN, -0, .5, 2^53+1, 2^63, 2^64, infinities); StateFeature and [state] tables from JSON (accepted and rejected shapes); SearchApp::build_search_instance on query sequences against one application; non-trivial = distinct case in which the container (or a state model) holds 6 or more entries at some point, a direct feature / parse call, or a rejected table; distinct by full case text"
 }
